@@ -317,6 +317,12 @@ class Interp(object):
         self.model = model
         self.module = module
         self.hooks = hooks if hooks is not None else {}
+        if model is not None:
+            # the tree helpers of the standard library are part of the language level the interpreter models: always available
+            from .absnodes import std_hooks
+            for k, v in std_hooks().items():
+                if k.startswith(('ast.', 'iter_')):
+                    self.hooks.setdefault(k, v)
         self.version = tuple(version or sys.version_info[:3])
         self.events = []
         self.unknown = []
@@ -1245,7 +1251,8 @@ class Interp(object):
     def call_method(self, cls_qual, name, self_obj, args, kwargs=None):
         fi = self.model.method(cls_qual, name)
         if fi is None:
-            raise AnalysisError('method %s.%s not found' % (cls_qual, name))
+            from .model import LostAnchor
+            raise LostAnchor('anchor method %s.%s not found' % (cls_qual, name))
         return self.call_closure(Closure(fi.node, {}, self, self_obj=self_obj, cls=cls_qual), list(args), kwargs or {})
 
     def call_function(self, qual, args, kwargs=None):
